@@ -4204,7 +4204,7 @@ func (c *BytecodeCompiler) objectPattern(objectTypeNode ast.ComplexConstantNode,
 				false,
 			)
 
-			c.pattern(e.Value, valType)
+			c.pattern(e.Value, c.typeOf(e.Value))
 			c.emit(location.StartPos.Line, bytecode.POP_SKIP_ONE)
 			jmp := c.emitJump(location.StartPos.Line, bytecode.JUMP_UNLESS_NP)
 			jumpsToPatch = append(jumpsToPatch, jmp)
@@ -4274,7 +4274,7 @@ func (c *BytecodeCompiler) mapOrRecordPattern(typ types.Type, location *position
 			c.emitValue(value.ToSymbol(identifierToName(e.Key)).ToValue(), location)
 			c.compileSubscript(typ, location)
 
-			c.pattern(e.Value, typ)
+			c.pattern(e.Value, c.typeOf(e.Value))
 			c.emit(location.StartPos.Line, bytecode.POP_SKIP_ONE)
 			jmp := c.emitJump(location.StartPos.Line, bytecode.JUMP_UNLESS_NP)
 			jumpsToPatch = append(jumpsToPatch, jmp)
@@ -4284,7 +4284,7 @@ func (c *BytecodeCompiler) mapOrRecordPattern(typ types.Type, location *position
 			c.compileNodeWithResult(e.Key)
 			c.compileSubscript(typ, location)
 
-			c.pattern(e.Value, typ)
+			c.pattern(e.Value, c.typeOf(e.Value))
 			c.emit(location.StartPos.Line, bytecode.POP_SKIP_ONE)
 			jmp := c.emitJump(location.StartPos.Line, bytecode.JUMP_UNLESS_NP)
 			jumpsToPatch = append(jumpsToPatch, jmp)
@@ -4482,7 +4482,7 @@ func (c *BytecodeCompiler) listOrTuplePattern(typ types.Type, location *position
 		c.emitValue(value.SmallInt(i).ToValue(), element.Location())
 		c.compileSubscript(typ, location)
 
-		c.pattern(element, typ)
+		c.pattern(element, c.typeOf(element))
 		c.emit(location.StartPos.Line, bytecode.POP_SKIP_ONE)
 		jmp := c.emitJump(location.StartPos.Line, bytecode.JUMP_UNLESS_NP)
 		jumpsToPatch = append(jumpsToPatch, jmp)
@@ -4556,7 +4556,7 @@ func (c *BytecodeCompiler) listOrTuplePattern(typ types.Type, location *position
 			c.emitGetLocal(location.StartPos.Line, iteratorVar.index)
 			c.compileSubscript(typ, location)
 
-			c.pattern(element, typ)
+			c.pattern(element, c.typeOf(element))
 			c.emit(location.StartPos.Line, bytecode.POP_SKIP_ONE)
 			jmp := c.emitJump(location.StartPos.Line, bytecode.JUMP_UNLESS_NP)
 			jumpsToPatch = append(jumpsToPatch, jmp)
